@@ -106,7 +106,7 @@ fn main() {
     let prop = Property {
         id: "C02",
         level: "fault_enumeration",
-        rule: "for a catalogue of small sessions (1-3 blocks, equal/unequal, parity 1-2, interleave 1-3, in-band/FDT-only OTI, 1-2 transfers, 5 FEC schemes) EVERY subset of the object packets is delivered in order (the FDT packet first), each also with one duplicated packet; larger sessions get threshold-biased sampled loss (exactly k / k+1 / k-1 symbols per block, bursts, loss of first/last/B-flag packets, FDT copies lost); multi-packet FDT instances and carouselled / twice-transferred objects whose first two copies each arrive in part while their union is sufficient; the decodability predicate is computed from the delivered list alone with the reference partition; predicate true => a Complete writer with exact bytes; a case is one chunk of subsets of one shape, non-trivial when at least one delivery was decodable; distinct = (shape, chunk)",
+        rule: "for a catalogue of small sessions (1-3 blocks, equal/unequal, parity 1-2, interleave 1-3, in-band/FDT-only OTI, 1-2 transfers, 5 FEC schemes) EVERY subset of the object packets is delivered in order (the FDT packet first), each also with one duplicated packet; larger sessions get threshold-biased sampled loss (exactly k / k+1 / k-1 symbols per block, bursts, loss of first/last/B-flag packets, FDT copies lost); multi-packet FDT instances and carouselled / twice-transferred objects whose first two copies each arrive in part while their union is sufficient; the decodability predicate is computed from the delivered list alone with the reference partition; predicate true => a Complete writer with exact bytes; a case is one chunk of subsets of one shape, non-trivial when at least one delivery was decodable; distinct = (shape, chunk); spread_over_copies deliveries are repeated with the packets 1-4 s apart, the default 10 s inactivity timeout and cleanup() after every push (housekeeping must not change what is delivered)",
         assumptions: vec![
             "an FDT instance listing the object must be decodable from packets delivered before the object's first delivered packet (sender emits it first, order preserved)".into(),
             "Raptor/RaptorQ repair-only decodes are not demanded (probabilistic codes): all k source symbols required".into(),
